@@ -1,8 +1,8 @@
 SPECIFICATION Spec
 CONSTANTS
-  Params <- RecvWrapReal
-  MaxBase = 65540
-  MaxHist = 3
+  Params <- SendWrapReal
+  MaxBase = 1000000
+  MaxHist = 5
 VIEW View
 ACTION_CONSTRAINT PrintScript
 CHECK_DEADLOCK FALSE
